@@ -5,7 +5,7 @@ use incan_syntax::ast::Span;
 use incan_syntax::diagnostics::{CompileError, format_error};
 use tower_lsp::lsp_types::Position;
 
-const ALPHA: [char; 6] = ['a', 'é', '€', '😀', '\n', '\r'];
+const ALPHA: [char; 7] = ['a', 'é', '€', '😀', '\n', '\r', '\t'];
 
 fn strip_ansi(s: &str) -> String {
     let mut out = String::new();
@@ -130,6 +130,7 @@ pub fn run(out: &mut Out, tier: &str, seed: u64) {
                 4 => '€',
                 5 => '😀',
                 6 => ' ',
+                7 => '\t',
                 _ => (b'a' + rng.below(26) as u8) as char,
             };
             doc.push(c);
